@@ -698,7 +698,9 @@ impl<T: El> MapWorld<T> {
                     2 => 15, // split
                     3 => 40,
                     4 => 22, // then emptied by retain: no elements, tombstones, lingering old table
-                    _ => 15, // then emptied key by key
+                    5 => 15, // then emptied key by key
+                    6 => 31, // shrunk mid-resize, then the main table emptied by retain (tombstones) with one old element left
+                    _ => 29, // reserve mid-resize (all leftovers carried, new resize started), then the main table emptied
                 };
                 for q in 0..nd {
                     let (a, b) = (Self::mkk(1000 + q), Self::mkv(q % VMOD));
@@ -707,11 +709,30 @@ impl<T: El> MapWorld<T> {
                 if shape == 4 {
                     window(|| d.retain(|_, _| false));
                 }
-                if shape >= 5 {
+                if shape == 5 {
                     for q in 0..nd {
                         let a = Self::mkk(1000 + q);
                         window(|| d.remove(&a));
                     }
+                }
+                if shape == 6 || shape == 7 {
+                    let old_ids = |d: &M<T, T>| -> Vec<u32> {
+                        let dd = harness(|| d.verif_dump(|k, _| k.id() as u64));
+                        dd.old.map_or(vec![], |o| o.elems.iter().filter(|&&e| e != u64::MAX).map(|&e| e as u32).collect())
+                    };
+                    if shape == 7 {
+                        window(|| d.reserve(40));
+                    }
+                    let old = old_ids(&d);
+                    let survivor = old.last().copied();
+                    // drop all old-table elements but one, and one main-table element
+                    let victim_main = harness(|| d.keys().map(|k| k.id()).find(|k| !old.contains(k)));
+                    window(|| d.retain(|k, _| {
+                        let id = k.id();
+                        (!old.contains(&id) || Some(id) == survivor) && Some(id) != victim_main
+                    }));
+                    window(|| d.shrink_to_fit());
+                    window(|| d.retain(|k, _| Some(k.id()) == survivor));
                 }
                 let src = &self.m;
                 window(|| d.clone_from(src));
